@@ -1050,7 +1050,10 @@ def gen_c20(rng, tier, index):
         # length does not divide a power of two
         tg = rng.choice(luas)
         uid[0] += 1
-        tg['lines'] = ['b="\\nxy"'] * rng.choice([7300, 7400, 14700]) + \
+        # (a first line of varying length moves the 64 KiB marks across the
+        # escapes of the strings that follow)
+        tg['lines'] = ['p' * rng.randint(1, 13) + '=1'] + \
+            ['b="\\n\\n\\n\\n"'] * rng.choice([5100, 5200, 10200]) + \
             ['big_%d=1' % uid[0]]
         tg['final_newline'] = True
         tg.pop('nested', None)
@@ -1678,4 +1681,4 @@ REQUIRED_PROBES = {
 }
 
 
-RULE_MORE = {'C12': ' Added in the build rounds: home-relative (~), `;`-carrying, backslash and high-byte spellings, paren-less require forms, eleven CLI routes that load carts, case-variant siblings, a directory literally named ~, a pico-8/carts tree below cwd, warm-up loads/builds earlier in the process (same-named cart elsewhere, a load failing half-way one level up, another HOME, an explicit --lua-path that must not outlive its build). Round 6: the cart required as a library by a program (name spelled in full, or a load path with a cart extension); the file the string aims at read first, legitimately, by a cart that lives next to it. Round 7: a symbolic link to a directory elsewhere inside every base (`shared/..` is the base lexically, another directory physically); a project directory with `?` in its name and siblings named as a substitution would give; the warm-up build resolves a package through a directory-carrying entry; a file opened under another name than the checked one is identified by (device, inode) against the files reachable inside the permitted roots.', 'C20': ' Added in the build rounds: target names with extension-like parts, header versions 1-41 of included carts, a project inside the carts folder with same-named decoys above it, cart directory reached through a symbolic link, a load that fails inside an included cart first, a same-named cart loaded elsewhere first, debug verbosity left on, `p8tool listlua good cart`, and a build over the including cart. Round 6: a cart that includes itself (whole or by tab: its own code as written, no cycle); include lines inside real block comments and after lines that merely look like comment brackets (the splice is textual); files next to a missing target whose names differ only by letter case (the load must still fail). Round 7: second loads after targets were rewritten with the same size and timestamps; target names with [, * and ? next to files the name would match as a shell pattern; include files that only make sense in context (they open a function, table, comment or long string that the cart closes on the next line); a deleted working directory.'}
+RULE_MORE = {'C12': " Added in the build rounds: home-relative (~), `;`-carrying, backslash and high-byte spellings, paren-less require forms, eleven CLI routes that load carts, case-variant siblings, a directory literally named ~, a pico-8/carts tree below cwd, warm-up loads/builds earlier in the process (same-named cart elsewhere, a load failing half-way one level up, another HOME, an explicit --lua-path that must not outlive its build). Round 6: the cart required as a library by a program (name spelled in full, or a load path with a cart extension); the file the string aims at read first, legitimately, by a cart that lives next to it. Round 7: a symbolic link to a directory elsewhere inside every base (`shared/..` is the base lexically, another directory physically); a project directory with `?` in its name and siblings named as a substitution would give; the warm-up build resolves a package through a directory-carrying entry; a file opened under another name than the checked one is identified by (device, inode) against the files reachable inside the permitted roots. Round 8: a load path on the command line and a different one in the environment at once, with the string naming a library that only the environment's path reaches, also from a package of a package; names that look like a drive prefix (`c:/x`, `C:\\\\x`) with directories so named in every possible working directory; a tree merely named like a carts folder outside HOME.", 'C20': ' Added in the build rounds: target names with extension-like parts, header versions 1-41 of included carts, a project inside the carts folder with same-named decoys above it, cart directory reached through a symbolic link, a load that fails inside an included cart first, a same-named cart loaded elsewhere first, debug verbosity left on, `p8tool listlua good cart`, and a build over the including cart. Round 6: a cart that includes itself (whole or by tab: its own code as written, no cycle); include lines inside real block comments and after lines that merely look like comment brackets (the splice is textual); files next to a missing target whose names differ only by letter case (the load must still fail). Round 7: second loads after targets were rewritten with the same size and timestamps; target names with [, * and ? next to files the name would match as a shell pattern; include files that only make sense in context (they open a function, table, comment or long string that the cart closes on the next line); a deleted working directory. Round 8: included carts in which a `-->8` line sits inside a multi-line string or comment (text, not a tab separator); include files larger than 64 KiB whose string escapes lie across the 64 KiB marks; backslashes in target file names.'}
